@@ -231,7 +231,13 @@ def search_annot(ctx, exe, progs):
             if shape(e) in old_shapes:
                 old_shapes.remove(shape(e))
                 new_errs.remove(e)
-        if new_errs:
+        if new_errs and all(e.startswith("Expected `NoValue` but got") for e in new_errs):
+            # a variable whose inferred type is the bottom type (the payload of `match None { Some(a) => .. }`, the result
+            # of an unannotated function) is assigned the result of the function that has just been annotated
+            viol("C21:annotation-new-check-error:value-for-NoValue-variable",
+                 "`check` reports new errors after inserting `%s`: %s" % (ann, new_errs[:2]), observed=out, inserted=ann,
+                 new_errors=new_errs[:5])
+        elif new_errs:
             viol("C21:annotation-new-check-error:" + m["kind"],
                  "`check` reports new errors after inserting `%s`: %s" % (ann, new_errs[:2]), observed=out, inserted=ann,
                  new_errors=new_errs[:5])
